@@ -73,12 +73,21 @@ def R(name, ok, fn, p, detail=None, kind='trace'):
 
 
 def mk(ctx, st, cls, outcomes, extra=None):
+    """The recipe object as its real __init__ builds it (so that attributes a refactoring adds there exist),
+    in SOME process and thread: afterwards the object may be used after a fork or after unpickling, so
+    the process and thread identities are new unknowns when the method under contract runs."""
     cache = Recorder('cache', ctx.cls('diskcache.core.Cache'), outcomes=outcomes)
-    f = {'_cache': cache, '_key': Opaque('other', st.fresh('key', OTHER)),
-         '_expire': None,            # requires: no expiry (with an expiry the lock is a lease by design)
-         '_tag': Opaque('other', st.fresh('tag', OTHER))}
-    f.update(extra or {})
-    return ctx.new_obj('diskcache.recipes.' + cls, f), cache
+    it = ctx.interp(st)
+    key = Opaque('other', st.fresh('key', OTHER))
+    tag = Opaque('other', st.fresh('tag', OTHER))
+    kw = {'expire': None, 'tag': tag}        # requires: no expiry (with an expiry the lock is a lease by design)
+    if extra and '_value' in extra:
+        kw['value'] = extra['_value']
+    obj = it.instantiate(ctx.cls('diskcache.recipes.' + cls), [cache, key], kw)
+    for k_ in ('pid', 'tid'):
+        st.world.pop(k_, None)               # a later os.getpid() / get_ident() reads the identity of the caller
+    st.trace[:] = [e for e in st.trace if e[0] != 'CALL']
+    return obj, cache
 
 
 def cache_calls(tr):
@@ -366,3 +375,8 @@ def meta(results, tier):
                             'no interleaving is executed: mutual exclusion follows from invariant-preserving atomic steps (paper argument)',
                             'liveness (a waiting acquirer eventually succeeds) is not decided'],
             'explanation': 'every recipe method executed against a recorder cache; each loop iteration is an arbitrary step from any state within the invariant'}
+
+
+def post_process(results, tier):
+    from contracts import c03 as _c03
+    return _c03.dependency_rename('C15', results)
